@@ -132,4 +132,82 @@ def d3Witness : Option (Bool × Nat × Nat) :=
 
 theorem C11_unfixed_poisons : d3Witness = some (false, 2012, 0) := by decide +kernel
 
+/-! ### the synchronous base family (`*_ctx_base.c`) -/
+
+theorem baseUpdate_error (A : Alg D) (x : Ctx D) (data : Bytes) : (baseUpdate A x data).error = x.error := by
+  unfold baseUpdate
+  simp only []
+  split <;> split <;> split <;> (try split) <;> (try split) <;> rfl
+
+theorem baseFinal_error (A : Alg D) (x : Ctx D) : (baseFinal A x).error = x.error := rfl
+
+/-- an accepted submit of the base family leaves no error code on the context (after `fix:` F16),
+    so the public wrapper returns 0 for it whatever was rejected before -/
+theorem C11_base_nopoison (A : Alg D) (m : M D) (c : Cid) (data : Bytes) (flags : Nat)
+    (hacc : baseRejects (m.ctxs c) flags = false) :
+    (baseSubmit A m c data flags).2 = some c ∧ ((baseSubmit A m c data flags).1.ctxs c).error = 0 ∧
+    isalCode (baseSubmit A m c data flags).1 c (baseSubmit A m c data flags).2 = 0 := by
+  simp only [baseRejects, Bool.or_eq_false_iff, decide_eq_false_iff_not, Bool.and_eq_false_imp, Decidable.not_not,
+    decide_eq_true_eq] at hacc
+  obtain ⟨⟨h1, h2⟩, h3⟩ := hacc
+  have herr : ((baseSubmit A m c data flags).1.ctxs c).error = 0 ∧ (baseSubmit A m c data flags).2 = some c := by
+    unfold baseSubmit
+    simp only []
+    rw [if_neg (by simpa using h1), if_neg (by intro ⟨a, b⟩; exact h2 a b), if_neg (by intro ⟨a, b⟩; exact h3 a b)]
+    refine ⟨?_, rfl⟩
+    simp only [setCtx, if_true]
+    split <;> simp [baseFinal_error, baseUpdate_error, baseInit]
+  refine ⟨herr.2, herr.1, ?_⟩
+  rw [herr.2]; simp [isalCode, herr.1]
+
+/-- a rejected submit of the base family hands the context straight back and changes only `error` -/
+theorem C11_base_reject (A : Alg D) (m : M D) (c : Cid) (data : Bytes) (flags : Nat)
+    (hrej : baseRejects (m.ctxs c) flags = true) :
+    ∃ e : Int, e ≠ 0 ∧ baseSubmit A m c data flags = (setCtx m c { m.ctxs c with error := e }, some c) := by
+  unfold baseSubmit
+  simp only []
+  by_cases h1 : flags / 4 ≠ 0
+  · exact ⟨errInvalidFlags, by decide, by rw [if_pos h1]⟩
+  · rw [if_neg h1]
+    by_cases h2 : (m.ctxs c).processing = true ∧ flags = 3
+    · exact ⟨errAlreadyProcessing, by decide, by rw [if_pos h2]⟩
+    · rw [if_neg h2]
+      by_cases h3 : (m.ctxs c).complete = true ∧ flags % 2 = 0
+      · exact ⟨errAlreadyCompleted, by decide, by rw [if_pos h3]⟩
+      · exfalso
+        simp only [baseRejects, Bool.or_eq_true, decide_eq_true_eq, Bool.and_eq_true] at hrej
+        rcases hrej with (h | h) | h
+        · exact h1 h
+        · exact h2 h
+        · exact h3 h
+
+/-- Defect F16 on the model: the base family before the fix did not clear `error` on an accepted
+    UPDATE/LAST, so after one rejected call every later valid call on that context was reported
+    failed.  Witness: FIRST, a call with invalid flags, then a valid UPDATE. -/
+def baseSubmitUnfixed (A : Alg D) (m : M D) (c : Cid) (data : Bytes) (flags : Nat) : M D × Option Cid :=
+  let x := m.ctxs c
+  if flags / 4 ≠ 0 then (setCtx m c { x with error := errInvalidFlags }, some c)
+  else if x.processing ∧ flags = 3 then (setCtx m c { x with error := errAlreadyProcessing }, some c)
+  else if x.complete ∧ flags % 2 = 0 then (setCtx m c { x with error := errAlreadyCompleted }, some c)
+  else
+    let x' := match flags with
+      | 1 => baseUpdate A (baseInit A x) data
+      | 0 => baseUpdate A x data
+      | 2 => baseFinal A (baseUpdate A x data)
+      | _ => baseFinal A (baseUpdate A (baseInit A x) data)
+    (setCtx m c x', some c)
+
+def f16Witness : Bool × Nat × Nat :=
+  let A : Alg Nat := { B := 4, L := 8, lenBE := true, f := fun d _ => d + 1, init := 0 }
+  let m0 : M Nat := mgrInit ⟨1, 0⟩ (fun _ => { dig := 7, complete := true })
+  let r1 := baseSubmitUnfixed A m0 0 [1, 2, 3] 1
+  let r2 := baseSubmitUnfixed A r1.1 0 [1, 2, 3] 8
+  let r3 := baseSubmitUnfixed A r2.1 0 [4, 5, 6] 0
+  let g1 := baseSubmit A m0 0 [1, 2, 3] 1
+  let g2 := baseSubmit A g1.1 0 [1, 2, 3] 8
+  let g3 := baseSubmit A g2.1 0 [4, 5, 6] 0
+  (baseRejects (r2.1.ctxs 0) 0, isalCode r3.1 0 r3.2, isalCode g3.1 0 g3.2)
+
+theorem C11_base_unfixed_poisons : f16Witness = (false, 2011, 0) := by decide +kernel
+
 end IsalVerif.HashMB
